@@ -186,8 +186,11 @@ func (n *Node) CrashRestart(board Board, workDir string) error {
 	n.DBDir = newDir
 	n.oldLDB = append(n.oldLDB, n.LDB)
 	n.LDB = ldb
+	// from now on the node reads its communication key from the real key store the start-up sequence
+	// opened (closed with the world)
 	if ks, ok := sp.GetKeyStore().(*keystore.LevelDBKeyStore); ok {
-		closeDBField(ks, "keystoreDb")
+		n.Keys = ks
+		n.oldKS = append(n.oldKS, ks)
 	}
 	if err := n.WireHot(ldb, board); err != nil {
 		return err
